@@ -26,20 +26,23 @@ import (
 // MOp is one operation of a matrix history.  U: operand handle of Set, -1 = dense
 // operand R x C with row-major values XS.
 type MOp struct {
-	Op  string  `json:"op"`
-	T   int     `json:"t"`
-	U   int     `json:"u,omitempty"`
-	I   int64   `json:"i,omitempty"`
-	J   int64   `json:"j,omitempty"`
-	I2  int64   `json:"i2,omitempty"`
-	J2  int64   `json:"j2,omitempty"`
-	X   int64   `json:"x,omitempty"`
-	R   int64   `json:"r,omitempty"`
-	C   int64   `json:"c,omitempty"`
-	RI  []int64 `json:"ri,omitempty"`
-	CI  []int64 `json:"ci,omitempty"`
-	XS  []int64 `json:"xs,omitempty"`
-	Bad bool    `json:"bad,omitempty"`
+	Op string  `json:"op"`
+	T  int     `json:"t"`
+	U  int     `json:"u,omitempty"`
+	I  int64   `json:"i,omitempty"`
+	J  int64   `json:"j,omitempty"`
+	I2 int64   `json:"i2,omitempty"`
+	J2 int64   `json:"j2,omitempty"`
+	X  int64   `json:"x,omitempty"`
+	R  int64   `json:"r,omitempty"`
+	C  int64   `json:"c,omitempty"`
+	RI []int64 `json:"ri,omitempty"`
+	CI []int64 `json:"ci,omitempty"`
+	XS []int64 `json:"xs,omitempty"`
+	// IterFrom / IterFromPart: V = 1 uses the non-const IteratorFrom(i,j) + Get() instead of
+	// ConstIteratorFrom(i,j) + GetConst() (the same ITERATOR_FROM at HEAD, the same model operation)
+	V   int  `json:"v,omitempty"`
+	Bad bool `json:"bad,omitempty"`
 }
 type MCase struct {
 	Type string `json:"type"`
@@ -189,6 +192,36 @@ func (w *MWorld) execOne(o MOp) (kind int64, payload []int64) {
 			payload = append(payload, int64(i), int64(j), int64(it.GetConst().GetFloat64()))
 			it.Next()
 		}
+	case "IterFrom", "IterFromPart":
+		// iteration started in the middle; IterFromPart: abandoned after o.X visits (0 = constructor only)
+		limit := int64(1 << 40)
+		if o.Op == "IterFromPart" {
+			limit = o.X
+		}
+		g := 0
+		if o.V == 1 {
+			it := m.IteratorFrom(int(o.I), int(o.J))
+			for c := int64(0); c < limit && it.Ok(); c++ {
+				i, j := it.Index()
+				payload = append(payload, int64(i), int64(j), int64(it.Get().GetFloat64()))
+				it.Next()
+				if g++; g > 10000 {
+					payload = append(payload, C_LOOP)
+					break
+				}
+			}
+		} else {
+			it := m.ConstIteratorFrom(int(o.I), int(o.J))
+			for c := int64(0); c < limit && it.Ok(); c++ {
+				i, j := it.Index()
+				payload = append(payload, int64(i), int64(j), int64(it.GetConst().GetFloat64()))
+				it.Next()
+				if g++; g > 10000 {
+					payload = append(payload, C_LOOP)
+					break
+				}
+			}
+		}
 	case "MapMul":
 		c := float64(o.X)
 		m.Map(func(s ad.Scalar) { s.SetFloat64(s.GetFloat64() * c) })
@@ -331,6 +364,15 @@ func mexecute(c MCase) []Out {
 
 func coqMOp(o MOp) string {
 	switch o.Op {
+	case "IterFrom":
+		return fmt.Sprintf("MIterFrom %d %s %s", o.T, Z(o.I), Z(o.J))
+	case "IterFromPart":
+		return fmt.Sprintf("MIterFromPart %d %s %s %d", o.T, Z(o.I), Z(o.J), o.X)
+	}
+	return "MB (" + coqMOpBase(o) + ")"
+}
+func coqMOpBase(o MOp) string {
+	switch o.Op {
 	case "New":
 		return fmt.Sprintf("NewMat %s %s %s %s %s", ZList(o.RI), ZList(o.CI), ZList(o.XS), Z(o.R), Z(o.C))
 	case "At":
@@ -372,19 +414,22 @@ func coqMCase(c MCase) string {
 	return "(" + List(ops) + ",\n   " + List(outs) + ")"
 }
 
-const hdrMat = "From Coq Require Import ZArith List Bool. Import ListNotations.\nFrom ADV Require Import C11.Model C11.ModelMat C11.CorrMat C11.DenseMat C11.CorrMat2.\nOpen Scope Z_scope.\n"
+const hdrMat = "From Coq Require Import ZArith List Bool. Import ListNotations.\nFrom ADV Require Import C11.Model C11.ModelMat C11.CorrMat C11.DenseMat C11.ModelMatFrom C11.DenseMatFrom C11.CorrMat3.\nOpen Scope Z_scope.\n"
 
-const ruleMat = "random histories (<= 30 ops, <= 4 whole sparse matrices of dims 0..5 x 0..5 incl. 0xn, nx0, 1xn, nx1, non-square; values in -8..8 kept below 100 in absolute value; element type drawn from all nine sparse matrix types, float64/int/real64 get half) over NewSparseMatrix(incl. duplicate and zero-valued positions)/At/SetAt(incl. zeros)/ConstAt/Set(sparse incl. itself and its own T()|dense)/Reset/SetIdentity/Swap/SwapRows/SwapColumns/T/Tip/Clone/ConstIterator(full|partial)/Map/MapSet/Reduce/Dims/Row/Col/Diag; 1 in 5 histories also draws malformed ops (out-of-range indices, dimension mismatch in Set, SwapRows/SwapColumns/Diag on non-square, constructor with out-of-range position or unequal slice lengths); a case is non-trivial iff it contains >= 6 mutating ops, >= 1 Set, >= 1 re-keying op (Swap/SwapRows/SwapColumns/T/Tip) and some matrix held a stored zero at some step; distinct = distinct (type, op list)"
+const ruleMat = "random histories (<= 30 ops, <= 4 whole sparse matrices of dims 0..5 x 0..5 incl. 0xn, nx0, 1xn, nx1, non-square; values in -8..8 kept below 100 in absolute value; element type drawn from all nine sparse matrix types, float64/int/real64 get half) over NewSparseMatrix(incl. duplicate and zero-valued positions)/At/SetAt(incl. zeros)/ConstAt/Set(sparse incl. itself and its own T()|dense)/Reset/SetIdentity/Swap/SwapRows/SwapColumns/T/Tip/Clone/ConstIterator(full|partial)/ConstIteratorFrom(i,j) and IteratorFrom(i,j) (full loop | abandoned after 0..3 visits; two of three aimed at a pending zero: start key q <= p, p a stored zero or value-less index key and the first index key at/after q; compound PendFrom = create a pending zero by SetAt(0) | At() | Reset | Map x*0 | Set(dense with zeros) | SetIdentity, then start there)/Map/MapSet/Reduce/Dims/Row/Col/Diag; 1 in 5 histories also draws malformed ops (out-of-range indices, dimension mismatch in Set, SwapRows/SwapColumns/Diag on non-square, constructor with out-of-range position or unequal slice lengths); a case is non-trivial iff it contains >= 6 mutating ops, >= 1 Set, >= 1 re-keying op (Swap/SwapRows/SwapColumns/T/Tip) and some matrix held a stored zero at some step, or it starts >= 1 iteration in the middle ON a pending zero and has >= 4 mutating ops; distinct = distinct (type, op list)"
 
 // ---------------------------------------------------------------- generator
 
 type mstats struct {
 	mut, set, rekey int
+	pendFrom        int // iterations started (IteratorFrom) with a pending zero as the first index key at/after the start
 	quirk           bool
 	bad             int
 }
 
-func (s mstats) nontrivial() bool { return s.mut >= 6 && s.set >= 1 && s.rekey >= 1 && s.quirk }
+func (s mstats) nontrivial() bool {
+	return s.mut >= 6 && s.set >= 1 && s.rekey >= 1 && s.quirk || s.pendFrom >= 1 && s.mut >= 4
+}
 
 const maxMats = 4
 
@@ -457,6 +502,60 @@ func genNewMat(r *Rng, obs []MatObs, bad bool) MOp {
 	return o
 }
 
+// pendingKeys: the index keys of the private `values` vector that read zero (a stored zero or a
+// value-less key): what skip() has to delete before delivering a position
+func pendingKeys(ob MatObs) []int64 {
+	val := map[int64]int64{}
+	has := map[int64]bool{}
+	for i, k := range ob.Keys {
+		has[k] = true
+		val[k] = ob.Vals[i]
+	}
+	var r []int64
+	for _, k := range ob.Index {
+		if !has[k] || val[k] == 0 {
+			r = append(r, k)
+		}
+	}
+	return r
+}
+
+// startsOnPending: the first index key at or after q reads zero
+func startsOnPending(ob MatObs, q int64) bool {
+	pk := map[int64]bool{}
+	for _, k := range pendingKeys(ob) {
+		pk[k] = true
+	}
+	for _, k := range ob.Index {
+		if k >= q {
+			return pk[k]
+		}
+	}
+	return false
+}
+
+// aimFrom: a start key q <= p such that the pending key p is the first index key at or after q
+func aimFrom(r *Rng, ob MatObs) (int64, bool) {
+	pk := pendingKeys(ob)
+	if len(pk) == 0 {
+		return 0, false
+	}
+	p := pk[r.Intn(len(pk))]
+	lo := int64(0)
+	for _, k := range ob.Index {
+		if k < p {
+			lo = k + 1
+		}
+	}
+	switch r.Intn(3) {
+	case 0:
+		return p, true
+	case 1:
+		return lo, true
+	}
+	return lo + int64(r.Intn(int(p-lo)+1)), true
+}
+
 func mmaxAbs(o MatObs) int64 {
 	m := int64(0)
 	for _, x := range append(append([]int64{}, o.Vals...), o.Reads...) {
@@ -476,6 +575,7 @@ func genMatCase(r *Rng, tn string, withBad bool, cw *CaseWriter) (MCase, mstats)
 	c := MCase{Type: tn, Mat: true}
 	w := &MWorld{Type: tn}
 	nops := r.Range(8, 30)
+	forceFrom := -1 // matrix on which the next operation must start an iteration at a pending zero
 	count := func(k string) {
 		if cw != nil {
 			cw.Count(k)
@@ -492,152 +592,261 @@ func genMatCase(r *Rng, tn string, withBad bool, cw *CaseWriter) (MCase, mstats)
 		}
 		bad := withBad && r.Intn(6) == 0
 		var o MOp
-		if len(obs) == 0 {
-			o = genNewMat(r, obs, false)
-		} else {
-			t := r.Intn(len(obs))
-			ob := obs[t]
-			rows, cols := ob.Rows, ob.Cols
-			nonempty := rows > 0 && cols > 0
-			pos := func() (int64, int64) { return int64(r.Intn(rows)), int64(r.Intn(cols)) }
-			badPos := func() (int64, int64) {
-				switch r.Intn(4) {
-				case 0:
-					return -1, 0
-				case 1:
-					return int64(rows), 0
-				case 2:
-					return 0, int64(cols)
+		genOne := func() (MOp, bool) {
+			var o MOp
+			if forceFrom >= 0 && forceFrom < len(obs) {
+				t := forceFrom
+				forceFrom = -1
+				ob := obs[t]
+				if ob.Rows > 0 && ob.Cols > 0 {
+					q, ok := aimFrom(r, ob)
+					if !ok {
+						q = int64(r.Intn(ob.Rows * ob.Cols))
+					}
+					o = MOp{Op: "IterFrom", T: t, I: q / int64(ob.Cols), J: q % int64(ob.Cols), V: r.Intn(2)}
+					if r.Intn(3) == 0 {
+						o.Op = "IterFromPart"
+						o.X = int64(r.Range(0, 3))
+					}
+					return o, true
 				}
-				return int64(rows) + 1, int64(cols) + 2
 			}
-			kinds := []string{"New", "At", "SetAt", "ConstAt", "Set", "Reset", "SetIdentity", "Swap", "SwapRows", "SwapColumns",
-				"T", "Tip", "Clone", "Iterate", "IterPart", "MapMul", "MapSetMul", "ReduceSum", "Dims", "Row", "Col", "Diag"}
-			weights := []int{5, 4, 16, 4, 10, 2, 4, 8, 3, 3, 4, 3, 3, 6, 3, 3, 2, 2, 1, 2, 2, 1}
-			k := kinds[r.Pick(weights)]
-			o = MOp{Op: k, T: t}
-			switch k {
-			case "New":
-				if len(obs) >= maxMats {
-					continue
-				}
-				o = genNewMat(r, obs, bad)
-			case "T", "Clone":
-				if len(obs) >= maxMats {
-					continue
-				}
-			case "At", "ConstAt", "SetAt":
-				if bad {
-					o.I, o.J = badPos()
-					o.Bad = true
-				} else if nonempty {
-					o.I, o.J = pos()
-				} else {
-					continue
-				}
-				if k == "SetAt" {
-					o.X = val(r)
-				}
-			case "Set":
-				// operands: a matrix of the world with the same dims (incl. itself), else dense
-				var cand []int
-				for u := range obs {
-					if obs[u].Rows == rows && obs[u].Cols == cols {
-						cand = append(cand, u)
+			if len(obs) == 0 {
+				o = genNewMat(r, obs, false)
+			} else {
+				t := r.Intn(len(obs))
+				ob := obs[t]
+				rows, cols := ob.Rows, ob.Cols
+				nonempty := rows > 0 && cols > 0
+				pos := func() (int64, int64) { return int64(r.Intn(rows)), int64(r.Intn(cols)) }
+				badPos := func() (int64, int64) {
+					switch r.Intn(4) {
+					case 0:
+						return -1, 0
+					case 1:
+						return int64(rows), 0
+					case 2:
+						return 0, int64(cols)
 					}
+					return int64(rows) + 1, int64(cols) + 2
 				}
-				if bad {
-					o.Bad = true
-					o.U = -1
-					o.R, o.C = int64(rows)+1, int64(cols)
-					if r.Bool() {
-						o.R, o.C = int64(cols)+1, int64(rows)
+				kinds := []string{"New", "At", "SetAt", "ConstAt", "Set", "Reset", "SetIdentity", "Swap", "SwapRows", "SwapColumns",
+					"T", "Tip", "Clone", "Iterate", "IterPart", "MapMul", "MapSetMul", "ReduceSum", "Dims", "Row", "Col", "Diag",
+					"IterFrom", "IterFromPart", "PendFrom"}
+				weights := []int{5, 4, 16, 4, 10, 2, 4, 8, 3, 3, 4, 3, 3, 6, 3, 3, 2, 2, 1, 2, 2, 1, 5, 3, 6}
+				k := kinds[r.Pick(weights)]
+				o = MOp{Op: k, T: t}
+				switch k {
+				case "New":
+					if len(obs) >= maxMats {
+						return o, false
 					}
-					o.XS = vals(r, int(o.R*o.C))
+					o = genNewMat(r, obs, bad)
+				case "T", "Clone":
+					if len(obs) >= maxMats {
+						return o, false
+					}
+				case "At", "ConstAt", "SetAt":
+					if bad {
+						o.I, o.J = badPos()
+						o.Bad = true
+					} else if nonempty {
+						o.I, o.J = pos()
+					} else {
+						return o, false
+					}
+					if k == "SetAt" {
+						o.X = val(r)
+					}
+				case "Set":
+					// operands: a matrix of the world with the same dims (incl. itself), else dense
+					var cand []int
 					for u := range obs {
-						if (obs[u].Rows != rows || obs[u].Cols != cols) && r.Bool() {
-							o.U, o.R, o.C, o.XS = u, 0, 0, nil
+						if obs[u].Rows == rows && obs[u].Cols == cols {
+							cand = append(cand, u)
 						}
 					}
-				} else if len(cand) > 1 && r.Intn(3) != 0 || r.Intn(8) == 0 {
-					o.U = cand[r.Intn(len(cand))]
-				} else {
-					o.U = -1
-					o.R, o.C = int64(rows), int64(cols)
-					o.XS = vals(r, rows*cols)
-				}
-			case "Swap":
-				if bad {
-					o.Bad = true
-					o.I, o.J = badPos()
-					if nonempty {
-						o.I2, o.J2 = pos()
+					if bad {
+						o.Bad = true
+						o.U = -1
+						o.R, o.C = int64(rows)+1, int64(cols)
 						if r.Bool() {
-							o.I, o.J, o.I2, o.J2 = o.I2, o.J2, o.I, o.J
+							o.R, o.C = int64(cols)+1, int64(rows)
+						}
+						o.XS = vals(r, int(o.R*o.C))
+						for u := range obs {
+							if (obs[u].Rows != rows || obs[u].Cols != cols) && r.Bool() {
+								o.U, o.R, o.C, o.XS = u, 0, 0, nil
+							}
+						}
+					} else if len(cand) > 1 && r.Intn(3) != 0 || r.Intn(8) == 0 {
+						o.U = cand[r.Intn(len(cand))]
+					} else {
+						o.U = -1
+						o.R, o.C = int64(rows), int64(cols)
+						o.XS = vals(r, rows*cols)
+					}
+				case "Swap":
+					if bad {
+						o.Bad = true
+						o.I, o.J = badPos()
+						if nonempty {
+							o.I2, o.J2 = pos()
+							if r.Bool() {
+								o.I, o.J, o.I2, o.J2 = o.I2, o.J2, o.I, o.J
+							}
+						}
+					} else if nonempty {
+						o.I, o.J = pos()
+						o.I2, o.J2 = pos()
+					} else {
+						return o, false
+					}
+				case "SwapRows", "SwapColumns":
+					switch {
+					case bad && rows == cols && rows > 0:
+						o.Bad = true
+						o.I, o.J = int64(r.Intn(rows)), int64(rows)
+						if r.Bool() {
+							o.I, o.J = -1, int64(r.Intn(rows))
+						}
+					case rows != cols:
+						// returns an error, changes nothing: part of the valid stream too (rarely)
+						if !bad && r.Intn(3) != 0 {
+							return o, false
+						}
+						o.I, o.J = 0, 0
+						if rows > 1 {
+							o.J = 1
+						}
+					case rows == 0:
+						o.I, o.J = 0, 0 // 0 x 0: no loop iteration, returns nil
+					default:
+						o.I, o.J = int64(r.Intn(rows)), int64(r.Intn(rows))
+					}
+				case "IterPart":
+					o.I = int64(r.Range(0, 4))
+				case "IterFrom", "IterFromPart":
+					// iteration started in the middle: two times out of three aimed at a pending zero (a
+					// stored zero or a value-less index key p, start key q <= p with p the first index key
+					// at or after q), else anywhere
+					if bad {
+						o.I, o.J = badPos()
+						o.Bad = true
+					} else if nonempty {
+						o.I, o.J = pos()
+						if q, ok := aimFrom(r, ob); ok && r.Intn(3) != 0 {
+							o.I, o.J = q/int64(cols), q%int64(cols)
+						}
+					} else {
+						return o, false
+					}
+					o.V = r.Intn(2)
+					if k == "IterFromPart" {
+						o.X = int64(r.Range(0, 3))
+					}
+				case "PendFrom":
+					// compound: create a pending zero on matrix t (one of the origins below), then (next
+					// operation, forced) start an iteration at or before it
+					if !nonempty {
+						return o, false
+					}
+					var stored, empty []int64
+					inIdx := map[int64]bool{}
+					for _, key := range ob.Index {
+						inIdx[key] = true
+					}
+					for i, key := range ob.Keys {
+						if ob.Vals[i] != 0 {
+							stored = append(stored, key)
 						}
 					}
-				} else if nonempty {
-					o.I, o.J = pos()
-					o.I2, o.J2 = pos()
-				} else {
-					continue
-				}
-			case "SwapRows", "SwapColumns":
-				switch {
-				case bad && rows == cols && rows > 0:
-					o.Bad = true
-					o.I, o.J = int64(r.Intn(rows)), int64(rows)
-					if r.Bool() {
-						o.I, o.J = -1, int64(r.Intn(rows))
+					for q := int64(0); q < int64(rows*cols); q++ {
+						if !inIdx[q] {
+							empty = append(empty, q)
+						}
 					}
-				case rows != cols:
-					// returns an error, changes nothing: part of the valid stream too (rarely)
-					if !bad && r.Intn(3) != 0 {
-						continue
+					switch origin := r.Intn(6); {
+					case origin == 0 && len(stored) > 0: // zero written through At().SetFloat64(0)
+						q := stored[r.Intn(len(stored))]
+						o = MOp{Op: "SetAt", T: t, I: q / int64(cols), J: q % int64(cols), X: 0}
+						count("pending:setzero")
+					case origin <= 1 && len(empty) > 0: // an entry merely created by At()
+						q := empty[r.Intn(len(empty))]
+						o = MOp{Op: "At", T: t, I: q / int64(cols), J: q % int64(cols)}
+						count("pending:at")
+					case origin == 2 && len(stored) > 0: // Reset
+						o = MOp{Op: "Reset", T: t}
+						count("pending:reset")
+					case origin == 3: // arithmetic: x -> x*0 (Map creates every entry)
+						o = MOp{Op: "MapMul", T: t, X: 0}
+						if r.Bool() {
+							o.Op = "MapSetMul"
+						}
+						count("pending:arith")
+					case origin == 4 && len(stored) > 0: // Set(dense) writing zeros into stored entries
+						o = MOp{Op: "Set", T: t, U: -1, R: int64(rows), C: int64(cols), XS: vals(r, rows*cols)}
+						for _, q := range stored {
+							if r.Bool() {
+								o.XS[q] = 0
+							}
+						}
+						count("pending:setdense")
+					case len(stored) > 0: // SetIdentity: the off-diagonal stored entries become zeros
+						o = MOp{Op: "SetIdentity", T: t}
+						count("pending:identity")
+					default:
+						q := int64(r.Intn(rows * cols))
+						o = MOp{Op: "At", T: t, I: q / int64(cols), J: q % int64(cols)}
+						count("pending:at")
 					}
-					o.I, o.J = 0, 0
-					if rows > 1 {
-						o.J = 1
+					forceFrom = t
+				case "MapMul", "MapSetMul":
+					cs := []int64{-2, -1, 0, 2, 3, 1}
+					o.X = cs[r.Intn(len(cs))]
+					ax := o.X
+					if ax < 0 {
+						ax = -ax
 					}
-				case rows == 0:
-					o.I, o.J = 0, 0 // 0 x 0: no loop iteration, returns nil
-				default:
-					o.I, o.J = int64(r.Intn(rows)), int64(r.Intn(rows))
+					if mmaxAbs(ob)*ax > 100 {
+						o.X = -1
+					}
+				case "Row":
+					if bad {
+						o.Bad = true
+						o.I = int64(rows)
+					} else if rows > 0 {
+						o.I = int64(r.Intn(rows))
+					} else {
+						return o, false
+					}
+				case "Col":
+					if bad {
+						o.Bad = true
+						o.I = int64(cols)
+					} else if cols > 0 {
+						o.I = int64(r.Intn(cols))
+					} else {
+						return o, false
+					}
+				case "Diag":
+					if rows != cols && !bad {
+						return o, false
+					}
 				}
-			case "IterPart":
-				o.I = int64(r.Range(0, 4))
-			case "MapMul", "MapSetMul":
-				cs := []int64{-2, -1, 0, 2, 3, 1}
-				o.X = cs[r.Intn(len(cs))]
-				ax := o.X
-				if ax < 0 {
-					ax = -ax
-				}
-				if mmaxAbs(ob)*ax > 100 {
-					o.X = -1
-				}
-			case "Row":
-				if bad {
-					o.Bad = true
-					o.I = int64(rows)
-				} else if rows > 0 {
-					o.I = int64(r.Intn(rows))
-				} else {
-					continue
-				}
-			case "Col":
-				if bad {
-					o.Bad = true
-					o.I = int64(cols)
-				} else if cols > 0 {
-					o.I = int64(r.Intn(cols))
-				} else {
-					continue
-				}
-			case "Diag":
-				if rows != cols && !bad {
-					continue
-				}
+			}
+			return o, true
+		}
+		var okGen bool
+		if o, okGen = genOne(); !okGen {
+			continue
+		}
+		if (o.Op == "IterFrom" || o.Op == "IterFromPart") && !o.Bad && o.T < len(obs) {
+			if startsOnPending(obs[o.T], o.I*int64(obs[o.T].Cols)+o.J) {
+				st.pendFrom++
+				count("from:starts-on-pending-zero")
+			} else {
+				count("from:other")
 			}
 		}
 		c.Ops = append(c.Ops, o)
@@ -689,6 +898,16 @@ func mnonzero(reads []int64, cols int) []int64 {
 	r := []int64{}
 	for k, x := range reads {
 		if x != 0 {
+			r = append(r, int64(k/cols), int64(k%cols), x)
+		}
+	}
+	return r
+}
+
+func mnonzeroFrom(reads []int64, cols int, from int) []int64 {
+	r := []int64{}
+	for k, x := range reads {
+		if x != 0 && k >= from {
 			r = append(r, int64(k/cols), int64(k%cols), x)
 		}
 	}
@@ -768,7 +987,7 @@ func minRange(o MOp, sh []shadow) bool {
 	}
 	s := sh[o.T]
 	switch o.Op {
-	case "At", "ConstAt", "SetAt":
+	case "At", "ConstAt", "SetAt", "IterFrom", "IterFromPart":
 		return s.in(o.I, o.J)
 	case "Set":
 		if o.U >= 0 {
@@ -933,6 +1152,13 @@ func mpropCheck(c MCase) (fail string, at int) {
 			e := mnonzero(sh[o.T].v, sh[o.T].c)
 			if int64(len(e)) > 3*o.I {
 				e = e[:3*o.I]
+			}
+			expP, checkP = e, true
+		case "IterFrom", "IterFromPart":
+			// exactly the non-zero elements at the positions >= (i,j), row-major, the first one included
+			e := mnonzeroFrom(sh[o.T].v, sh[o.T].c, int(o.I)*sh[o.T].c+int(o.J))
+			if o.Op == "IterFromPart" && int64(len(e)) > 3*o.X {
+				e = e[:3*o.X]
 			}
 			expP, checkP = e, true
 		case "MapMul", "MapSetMul":
@@ -1227,8 +1453,8 @@ func matMain(o Opts) {
 		}
 		c := rp.Case
 		c.Outs = mexecute(c)
-		w := NewCaseWriter(o.Out, "replay_mat", hdrMat, "mism_mat2", 1000)
-		w.Type = "mcase"
+		w := NewCaseWriter(o.Out, "replay_mat", hdrMat, "mism_mat3", 1000)
+		w.Type = "mcase3"
 		w.Add(coqMCase(c), c, "replay", true)
 		w.Flush()
 		return
@@ -1238,8 +1464,8 @@ func matMain(o Opts) {
 		corpus = o.Extra[4:]
 	}
 	per := 24
-	w := NewCaseWriter(o.Out, "mat", hdrMat, "mism_mat2", per)
-	w.Type = "mcase"
+	w := NewCaseWriter(o.Out, "mat", hdrMat, "mism_mat3", per)
+	w.Type = "mcase3"
 	w.Rule = ruleMat
 	for _, c := range readMatCorpus(corpus) {
 		c.Mat = true
